@@ -442,10 +442,12 @@ theorem accepted_passes_decode_checks (p : Params) (x : Frame) (r : Int) (h : en
 /-! ## the glue: how the image classes call the two functions (round 2; `Model/CodecGlue.lean`, `Proofs/CodecGlue.lean`, T13g) -/
 
 /-- **Tie, call sites** (T13g: every call of `decode_frame` / `encode_frame` in `image.py`, `io.py`, `sc/sop.py`, `pm/sop.py`,
-`legacy/sop.py`, regenerated with the argument passed for every parameter): each of the four readers passes all eleven
+`legacy/sop.py`, `seg/sop.py`, regenerated with the argument passed for every parameter): each of the four readers passes all eleven
 parameters of `decode_frame`, each the data set's own attribute (`readerSource`: Rows ↦ rows, ..., Bits Stored -- or Bits
 Allocated when absent -- ↦ bits_stored, Planar Configuration or None, the frame's own index), so that the call is `readFrame`;
-each of the three writers hands `encode_frame` the object's own attributes (`writerSource`). -/
+each of the writers -- `SCImage`, `ParametricMap`, the legacy converter, and the `Segmentation` constructor's direct call AND its
+submission to a worker pool (`workers`), both through one keyword dictionary built in the same function and used only as `**kw` --
+hands `encode_frame` the object's own attributes (`writerSource`). -/
 theorem tie_call_sites :
     (∀ s ∈ decodeSites, siteAgrees frameCodecCallSites s "decode_frame" readerSource = true) ∧
     (∀ s ∈ encodeSites, siteAgrees frameCodecCallSites s "encode_frame" writerSource = true) ∧
